@@ -1,6 +1,7 @@
 """Catalogue of the built-in transformers (skcriteria.preprocessing) with their
 parameter grids, the model 'kind' they belong to and helpers to run them."""
 import importlib
+import zlib
 import inspect
 import pkgutil
 import warnings
@@ -149,9 +150,23 @@ def build(cfg, conditions=None):
             d = {c: box(v) for c, v in conds}
         else:
             d = {c: v for c, v in conds}
-        return I.variant(cls, {"ignore_missing_criteria": cfg.get("ignore_missing", False)}, [cfg["cls"], repr(conds)],
-                         first_positional=d)
-    return I.variant(cls, p, cfg)
+        obj = I.variant(cls, {"ignore_missing_criteria": cfg.get("ignore_missing", False)}, [cfg["cls"], repr(conds)],
+                        first_positional=d)
+        # the caller goes on using HIS dictionary (and the lists in it): the filter that was built must not notice
+        for k in list(d):
+            if isinstance(d[k], list):
+                d[k].append(-12345.5)
+                d[k][0] = -777.25
+            d[k] = _pos if cfg["cls"] == "Filter" else ([-1.0] if cfg["cls"] in ("FilterIn", "FilterNotIn") else -1e9)
+        d["no such criterion"] = d[next(iter(d))] if d else 0.0
+        return obj
+    rng_list = None
+    if isinstance(p.get("criteria_range"), tuple) and zlib.crc32(repr(cfg).encode()) & 1:
+        rng_list = p["criteria_range"] = list(p["criteria_range"])      # a list the caller keeps (and edits below)
+    obj = I.variant(cls, p, cfg)
+    if rng_list is not None:
+        rng_list[0], rng_list[1] = 50.0, 10.0
+    return obj
 
 
 def dump(dm):
